@@ -828,7 +828,25 @@ def op_c09(case):
             ia = [t for t in im["toks"] if t[0] not in ("WS", "COMMENT", "NL")]
             ib = [t for t in py["toks"] if t[0] not in ("COMMENT", "NL")]
             r["diff"] = first_diff(ia, ib)
+            # the only difference is where a literal part is cut into FSTRING_MIDDLE tokens (K-C10-named-escape-token-split) /
+            # that CPython emits empty FSTRING_MIDDLE tokens inside a format spec (K-C10-empty-parts-in-spec)
+            r["merged_equal"] = _merge_middles(ia) == _merge_middles(ib)
+            r["noempty_equal"] = _merge_middles(ia, False, True) == _merge_middles(ib, False, True)
+            r["both_equal"] = _merge_middles(ia, True, True) == _merge_middles(ib, True, True)
     return r
+
+
+def _merge_middles(toks, merge=True, drop_empty=False):
+    out = []
+    for t in toks:
+        t = list(t)
+        if drop_empty and t[0] == "FSTRING_MIDDLE" and t[1] == "":
+            continue
+        if merge and out and t[0] == "FSTRING_MIDDLE" and out[-1][0] == "FSTRING_MIDDLE" and out[-1][4:6] == t[2:4]:
+            out[-1] = [t[0], out[-1][1] + t[1], out[-1][2], out[-1][3], t[4], t[5]]
+        else:
+            out.append(t)
+    return [[("OP" if x[0] in ("OP", "ERRORTOKEN") else x[0])] + list(x[1:6]) for x in out]
 
 
 def op_c10(case):
@@ -836,7 +854,22 @@ def op_c10(case):
     src = case["src"]
     r = {"tok": op_c09({"src": src})}
     r["tree"] = op_c01({"src": src, "mode": case.get("mode", "eval")})
+    if r["tree"].get("diff") is not None:
+        # is the only difference that CPython keeps empty Constant('') parts in the JoinedStr of a format spec?
+        try:
+            a = P().parse_string(src, mode=case.get("mode", "eval"))
+            b = ast.parse(src, mode=case.get("mode", "eval"))
+            r["tree"]["nospecempty_equal"] = flatten(_drop_empty_spec_parts(a)) == flatten(_drop_empty_spec_parts(b))
+        except BaseException:  # noqa: BLE001
+            r["tree"]["nospecempty_equal"] = False
     return r
+
+
+def _drop_empty_spec_parts(tree):
+    for n in ast.walk(tree):
+        if isinstance(n, ast.FormattedValue) and isinstance(n.format_spec, ast.JoinedStr):
+            n.format_spec.values = [v for v in n.format_spec.values if not (isinstance(v, ast.Constant) and v.value == "")]
+    return tree
 
 
 # ---------------------------------------------------------------------------------------------
